@@ -359,7 +359,13 @@ func (k *ExtendedKey) Neuter() (*ExtendedKey, error) {
 	// key will simply be the pubkey of the current extended private key.
 	//
 	// This is the function N((k,c)) -> (K, c) from [BIP32].
-	return NewExtendedKey(version, k.pubKeyBytes(), k.chainCode, k.parentFP,
+	//
+	// The slices are copied so that zeroing either key leaves the other
+	// intact.
+	pubKey := append([]byte(nil), k.pubKeyBytes()...)
+	chainCode := append([]byte(nil), k.chainCode...)
+	parentFP := append([]byte(nil), k.parentFP...)
+	return NewExtendedKey(version, pubKey, chainCode, parentFP,
 		k.depth, k.childNum, false), nil
 }
 
